@@ -14,8 +14,10 @@ Definition hook_reject_leaves_residue_refuted := hook_reject_leaves_residue_coun
 Definition failed_add_modifies_memory_refuted := failed_add_modifies_memory_counterexample.
 (** A linear-state clear whose storage call fails has already emptied the memory. *)
 Definition failed_clear_empties_memory_refuted := failed_clear_empties_memory_counterexample.
-(** Reads that purge expired items swallow storage errors (by design of the code). *)
+(** Reads of the INDEXED state that purge expired items swallow storage errors (by design of the
+    code: the error is logged); the linear state's Search and FindRules return them. *)
 Definition purge_errors_swallowed := purge_errors_swallowed_example.
+Definition purge_errors_reported_linear := purge_errors_reported_linear_example.
 (** Load re-generates the id of a property fact stored under another key. *)
 Definition load_regenerates_property_ids := load_expired_record_in_facts_counterexample.
 (** Premises of the theorems are satisfiable: a concrete mixed system. *)
